@@ -440,6 +440,13 @@ class Kernel:
                 for p2, y in self.ev(t[3], p1):
                     out.extend(self._cmp_num(x, t[1], y, p2, t))
             return _mergeb(out)
+        if tg in ('p', 'bin', 'un', 'sub', 'mask', 'call', 'mcall', 'c', 'g', 'upd', 'phi') and not (tg == 'c' and isinstance(t[1], str)):
+            # truthiness of a number: x != 0 (NaN is truthy)
+            out = []
+            for p1, x in self.ev(t, p):
+                for p2, z in self.ev(T.C(0), p1):
+                    out.extend(self._cmp_num(x, 'ne', z, p2, t))
+            return _mergeb(out)
         raise Unsupported(self.rule, f'condition outside the numeric-kernel subset: {T.show(t, maxlen=160)}')
 
     def _cmp_num(self, x, op, y, p, t):
